@@ -303,7 +303,7 @@ theorem counter_step (w : Nat) (hasReset hasInc : Bool) (s : State Int) (st : Re
     have := hfix1 _ (mem (.const 0 10) (by simp [counterNet]))
     simp only [Kind.leaf, wd1 10 (by simp)] at this
     rw [this]; exact Leaf.gen_const 1 0
-  have v6 : (propagateAll D.design sp).val 6 = add w q (const w 1) := by
+  have v6 : (propagateAll D.design sp).val 6 = addS w q (const w 1) := by
     have := hfix1 _ (mem (.addc 1 4 10 6) (by simp [counterNet]))
     simp only [Kind.leaf, List.map, SeqFlat.g, List.getD_cons_zero, List.getD_cons_succ, v1, v4, v10, wdw 6 (by simp)] at this
     rw [this]; exact Leaf.gen_addc w q (const w 1) (const 1 0)
@@ -313,13 +313,13 @@ theorem counter_step (w : Nat) (hasReset hasInc : Bool) (s : State Int) (st : Re
   have vic : (propagateAll D.design sp).val (if hasInc then 3 else 4) = if hasInc then i.inc else const w 1 := by
     cases hasInc <;> simp [v3, v4]
   have v8 : (propagateAll D.design sp).val 8 =
-      mux2 w (if hasInc then i.inc else const w 1) q (add w q (const w 1)) := by
+      mux2 w (if hasInc then i.inc else const w 1) q (addS w q (const w 1)) := by
     have := hfix1 _ (mem (.mux2 (if hasInc then 3 else 4) 1 6 8) (by simp [counterNet]))
     simp only [Kind.leaf, List.map, SeqFlat.g, List.getD_cons_zero, List.getD_cons_succ, v1, v6, vic, wdw 8 (by simp)] at this
     rw [this]; exact Leaf.gen_mux2 w _ q _
   have v7 : (propagateAll D.design sp).val 7 =
       mux2 w (if hasReset then i.reset else const w 0)
-        (mux2 w (if hasInc then i.inc else const w 1) q (add w q (const w 1))) (const w 0) := by
+        (mux2 w (if hasInc then i.inc else const w 1) q (addS w q (const w 1))) (const w 0) := by
     have := hfix1 _ (mem (.mux2 (if hasReset then 2 else 5) 8 5 7) (by simp [counterNet]))
     simp only [Kind.leaf, List.map, SeqFlat.g, List.getD_cons_zero, List.getD_cons_succ, v8, v5, vrs, wdw 7 (by simp)] at this
     rw [this]; exact Leaf.gen_mux2 w _ _ _
@@ -335,11 +335,11 @@ theorem counter_step (w : Nat) (hasReset hasInc : Bool) (s : State Int) (st : Re
   rw [hrn, v9, v7] at hR
   have hnx := nat_regNext w false true 0 (or2 1 (if hasReset then i.reset else const w 0) (if hasInc then i.inc else const w 1))
     (mux2 w (if hasReset then i.reset else const w 0)
-        (mux2 w (if hasInc then i.inc else const w 1) q (add w q (const w 1))) (const w 0)) q (mux2_lt ..) hq
+        (mux2 w (if hasInc then i.inc else const w 1) q (addS w q (const w 1))) (const w 0)) q (mux2_lt ..) hq
   have hstep : (counter ⟨w, hasReset, hasInc⟩).step (nat q) i = nat (SeqFlat.regNext false true 0 0
       (or2 1 (if hasReset then i.reset else const w 0) (if hasInc then i.inc else const w 1))
       (mux2 w (if hasReset then i.reset else const w 0)
-        (mux2 w (if hasInc then i.inc else const w 1) q (add w q (const w 1))) (const w 0)) q) := by
+        (mux2 w (if hasInc then i.inc else const w 1) q (addS w q (const w 1))) (const w 0)) q) := by
     rw [← hnx.1]
     simp only [counter, counterClk, nat_q, opt]
     rfl
@@ -450,7 +450,7 @@ theorem step_step (w sw : Nat) (hasReset hasInc : Bool) (s : State Int) (st : Re
     have := hfix1 _ (mem (.const 0 10) (by cases hasInc <;> simp [stepNet]))
     simp only [Kind.leaf, wd1 10 (by simp)] at this
     rw [this]; exact Leaf.gen_const 1 0
-  have v6 : (propagateAll D.design sp).val 6 = add w q i.step := by
+  have v6 : (propagateAll D.design sp).val 6 = addS w q i.step := by
     have := hfix1 _ (mem (.addc 1 11 10 6) (by cases hasInc <;> simp [stepNet]))
     simp only [Kind.leaf, List.map, SeqFlat.g, List.getD_cons_zero, List.getD_cons_succ, v1, v11, v10, wdw 6 (by simp) (by simp)] at this
     rw [this]; exact Leaf.gen_addc w q i.step (const 1 0)
@@ -462,13 +462,13 @@ theorem step_step (w sw : Nat) (hasReset hasInc : Bool) (s : State Int) (st : Re
     · simp [v4 rfl]
     · simp [v3]
   have v8 : (propagateAll D.design sp).val 8 =
-      mux2 w (if hasInc then i.inc else const 1 1) q (add w q i.step) := by
+      mux2 w (if hasInc then i.inc else const 1 1) q (addS w q i.step) := by
     have := hfix1 _ (mem (.mux2 (if hasInc then 3 else 4) 1 6 8) (by cases hasInc <;> simp [stepNet]))
     simp only [Kind.leaf, List.map, SeqFlat.g, List.getD_cons_zero, List.getD_cons_succ, v1, v6, vic, wdw 8 (by simp) (by simp)] at this
     rw [this]; exact Leaf.gen_mux2 w _ q _
   have v7 : (propagateAll D.design sp).val 7 =
       mux2 w (if hasReset then i.reset else const w 0)
-        (mux2 w (if hasInc then i.inc else const 1 1) q (add w q i.step)) (const w 0) := by
+        (mux2 w (if hasInc then i.inc else const 1 1) q (addS w q i.step)) (const w 0) := by
     have := hfix1 _ (mem (.mux2 (if hasReset then 2 else 5) 8 5 7) (by cases hasInc <;> simp [stepNet]))
     simp only [Kind.leaf, List.map, SeqFlat.g, List.getD_cons_zero, List.getD_cons_succ, v8, v5, vrs, wdw 7 (by simp) (by simp)] at this
     rw [this]; exact Leaf.gen_mux2 w _ _ _
@@ -484,11 +484,11 @@ theorem step_step (w sw : Nat) (hasReset hasInc : Bool) (s : State Int) (st : Re
   rw [hrn, v9, v7] at hR
   have hnx := nat_regNext w false true 0 (or2 1 (if hasReset then i.reset else const w 0) (if hasInc then i.inc else const 1 1))
     (mux2 w (if hasReset then i.reset else const w 0)
-        (mux2 w (if hasInc then i.inc else const 1 1) q (add w q i.step)) (const w 0)) q (mux2_lt ..) hq
+        (mux2 w (if hasInc then i.inc else const 1 1) q (addS w q i.step)) (const w 0)) q (mux2_lt ..) hq
   have hstep : (stepUpCounter w hasReset hasInc).step (nat q) i = nat (SeqFlat.regNext false true 0 0
       (or2 1 (if hasReset then i.reset else const w 0) (if hasInc then i.inc else const 1 1))
       (mux2 w (if hasReset then i.reset else const w 0)
-        (mux2 w (if hasInc then i.inc else const 1 1) q (add w q i.step)) (const w 0)) q) := by
+        (mux2 w (if hasInc then i.inc else const 1 1) q (addS w q i.step)) (const w 0)) q) := by
     rw [← hnx.1]
     simp only [counter, counterClk, nat_q, opt]
     rfl
@@ -1695,6 +1695,104 @@ theorem pipelinePhase_net (ws : List Nat) (h : List PipeIn) (hv : ∀ x ∈ h, x
 example : netTrace (pipeNet [2, 4]).netD (pipePokes 2) (pipeOuts 2)
     (initC (pipeNet [2, 4]).netD.design (pipeNet [2, 4]).netD.st0 (pipeNet [2, 4]).netD.cons)
     [⟨0, [3, 9]⟩, ⟨1, [1, 1]⟩, ⟨0, [2, 15]⟩] = [[3, 9], [0, 0], [2, 15]] := by decide
+
+
+/-! ## bare Reg with arbitrary (natural) reset value -/
+theorem regNet_ok (w dw cw rv : Nat) (hasE hasR : Bool) : NetOK (regNet w dw cw rv hasE hasR).netD := by
+  refine ⟨⟨?_, ?_⟩, ?_, ?_⟩
+  · simp [C04.TopoOK, KNet.netD, regNet]
+  · intro i hi; simp [KNet.netD, regNet] at hi
+  · intro i j R R' hi hj _
+    have : i = 0 := by
+      rcases i with _ | i
+      · rfl
+      · simp [KNet.netD, regNet] at hi
+    have : j = 0 := by
+      rcases j with _ | j
+      · rfl
+      · simp [KNet.netD, regNet] at hj
+    omega
+  · intro R _ c hc; simp [KNet.netD, regNet] at hc
+
+def RegInv (w : Nat) (D : NetD) (s : State Int) (st : RegSt) : Prop :=
+  ∃ v : Nat, st = ⟨(v : Int), v % 2 ^ w⟩ ∧ s.st (D.rid 0) = (v : Int) ∧ s.val 2 = v % 2 ^ w ∧ s.prepared = []
+
+theorem reg_step (w dw cw rv : Nat) (hasE hasR : Bool) (s : State Int) (st : RegSt) (i : RegIn)
+    (hv : i.e < 2 ^ cw ∧ i.r < 2 ^ cw ∧ i.d < 2 ^ dw) (hI : RegInv w (regNet w dw cw rv hasE hasR).netD s st) :
+    let D := (regNet w dw cw rv hasE hasR).netD
+    let s' := clk D.design 1 ((regPokes i).foldl (putW D.design) s)
+    RegInv w D s' ((reg ⟨w, rv, hasE, hasR⟩).step st i) ∧
+    [2].map s'.val = [(reg ⟨w, rv, hasE, hasR⟩).out ((reg ⟨w, rv, hasE, hasR⟩).step st i) i] := by
+  intro D s'
+  obtain ⟨v, rfl, hst, hvq, hp⟩ := hI
+  obtain ⟨he, hr, hd⟩ := hv
+  let sp := (regPokes i).foldl (putW D.design) s
+  have wdd : D.wd 1 = dw := by simp [D, KNet.netD, regNet]
+  have wdq : D.wd 2 = w := by simp [D, KNet.netD, regNet]
+  have wdc : ∀ x, x ≠ 1 → x ≠ 2 → D.wd x = cw := by intro x h1 h2; simp [D, KNet.netD, regNet, h1, h2]
+  have spv : sp.val = upd (upd (upd s.val 3 i.e) 4 i.r) 1 i.d := by
+    simp only [sp, regPokes, List.foldl_cons, List.foldl_nil, putW_val, wdd, wdc 3 (by omega) (by omega),
+      wdc 4 (by omega) (by omega), Bits.put_ofNat]
+    simp [Nat.mod_eq_of_lt he, Nat.mod_eq_of_lt hr, Nat.mod_eq_of_lt hd]
+  have spst : sp.st = s.st := by simp only [sp, regPokes, List.foldl_cons, List.foldl_nil, putW_val]
+  have spp : sp.prepared = [] := by simp only [sp, regPokes, List.foldl_cons, List.foldl_nil, putW_val]; exact hp
+  have hC := cycle D (regNet_ok w dw cw rv hasE hasR) sp spp (fun _ => v) (by
+    intro j hj
+    have : j = 0 := by simp [D, KNet.netD, regNet] at hj; omega
+    subst this; rw [spst]; exact hst)
+  obtain ⟨hreg, _, _, hin1, _, hp2⟩ := hC
+  have nocomb : ∀ x, ∀ c, c ∈ D.combs → c.out ≠ x := by intro x c hc; simp [D, KNet.netD, regNet] at hc
+  have v1 : (propagateAll D.design sp).val 1 = i.d := by rw [hin1 1 (nocomb 1), spv]; simp [upd]
+  have v3 : (propagateAll D.design sp).val 3 = i.e := by rw [hin1 3 (nocomb 3), spv]; simp [upd]
+  have v4 : (propagateAll D.design sp).val 4 = i.r := by rw [hin1 4 (nocomb 4), spv]; simp [upd]
+  have hR := hreg 0 (regLeaf rv hasE hasR) (by simp [D, KNet.netD, regNet])
+  have hrn : regNextV (propagateAll D.design sp).val (regLeaf rv hasE hasR) v = SeqFlat.regNext hasR hasE rv i.r i.e i.d v := by
+    simp only [regNextV, regLeaf, v1]
+    cases hasE <;> cases hasR <;> simp [SeqFlat.regNext, v3, v4]
+  rw [hrn] at hR
+  have hstep : (reg ⟨w, rv, hasE, hasR⟩).step ⟨(v : Int), v % 2 ^ w⟩ i =
+      ⟨((SeqFlat.regNext hasR hasE rv i.r i.e i.d v : Nat) : Int), SeqFlat.regNext hasR hasE rv i.r i.e i.d v % 2 ^ w⟩ := by
+    simp only [reg, regClk_rule, opt_eq_some, SeqFlat.regNext]
+    cases hasE <;> cases hasR <;> simp [Bits.put_ofNat] <;> (repeat' split) <;> simp_all [Bits.put_ofNat]
+  have hq2 : (clk D.design 1 sp).val 2 = SeqFlat.regNext hasR hasE rv i.r i.e i.d v % 2 ^ w := by
+    have := hR.1
+    simp only [regLeaf, wdq, Bits.put_ofNat] at this
+    exact this
+  refine ⟨⟨_, hstep, hR.2, hq2, hp2⟩, ?_⟩
+  rw [hstep]
+  simp only [List.map, reg]
+  show [(clk D.design 1 sp).val 2] = _
+  rw [hq2]
+
+/-- **Reg, netlist level**: a bare register with ANY natural reset value (also ≥ 2^w: the attribute keeps it, the wire
+    shows it masked), any widths of d / q / control wires (also d wider than q, control wires wider than 1 bit), enable and
+    reset present or absent: the one-leaf netlist under `Net.Sim` from power-up shows on `q` after every
+    `poke e,r,d; clk(1)` the after-edge output of `Lib.reg`.  (Negative reset values cannot be expressed in `RLeaf.rv : Nat`;
+    they are covered at block level by `reg_rule`.) -/
+theorem reg_net (w dw cw rv : Nat) (hasE hasR : Bool) (h : List RegIn)
+    (hv : ∀ x ∈ h, x.e < 2 ^ cw ∧ x.r < 2 ^ cw ∧ x.d < 2 ^ dw) :
+    let D := (regNet w dw cw rv hasE hasR).netD
+    netTrace D regPokes [2] (initC D.design D.st0 D.cons) h =
+      ((reg ⟨w, rv, hasE, hasR⟩).trace (reg ⟨w, rv, hasE, hasR⟩).init h).map (fun ab => [ab.2]) := by
+  intro D
+  apply netTrace_sim D (reg ⟨w, rv, hasE, hasR⟩) regPokes [2] (fun o => [o])
+    (fun x => x.e < 2 ^ cw ∧ x.r < 2 ^ cw ∧ x.d < 2 ^ dw) (RegInv w D)
+  · intro s st i hi hI; exact reg_step w dw cw rv hasE hasR s st i hi hI
+  · exact hv
+  · have hi := init_state D (regNet_ok w dw cw rv hasE hasR)
+    have h0 := hi.2 0 (regLeaf rv hasE hasR) (by simp [D, KNet.netD, regNet])
+    refine ⟨rv, ?_, h0.1, ?_, hi.1⟩
+    · simp [reg, regInit, Bits.put_ofNat]
+    · have := h0.2
+      simp only [regLeaf] at this
+      rw [this]
+      have : D.wd 2 = w := by simp [D, KNet.netD, regNet]
+      rw [this, Bits.put_ofNat]
+
+-- 3-bit register with reset value 21 (oversized), 2-bit control wires: q shows 21 mod 8 = 5, holds, loads 6, r = 2 is no reset
+example : netTrace (regNet 3 3 2 21 true true).netD regPokes [2]
+    (initC (regNet 3 3 2 21 true true).netD.design (regNet 3 3 2 21 true true).netD.st0 (regNet 3 3 2 21 true true).netD.cons)
+    [⟨0, 0, 3⟩, ⟨1, 0, 6⟩, ⟨1, 2, 4⟩, ⟨0, 1, 7⟩] = [[5], [6], [4], [5]] := by decide
 
 
 end C09N
